@@ -70,6 +70,8 @@ func main() {
 		runOutFile(*seed, *dir, *out, *quick)
 	case "refcount":
 		runRefCount(*in, *tables, *dir, *out, *n)
+	case "chunkcoder":
+		runChunkCoder(*in, *out)
 	case "ctxpool":
 		runCtxPool(*in, *tables, *dir, *out)
 	case "dictiter":
